@@ -564,6 +564,31 @@ fn run_line(line: &str, mode: Mode, out: &mut String) {
                 .collect();
             hist_case(kind, cap, &calls, &views, out);
         }
+        "R" => {
+            // a recycled read buffer: every call gets a fresh Request / Response over a fresh array, but the bytes of
+            // every call are written to the SAME address (one allocation, overwritten between the calls; nothing of
+            // an earlier call is alive when it is overwritten).  The last call is reported exactly as an "A" case is:
+            // by the property it depends on its buffer, configuration and capacity only.
+            let kind = f[2];
+            let n: usize = f[4].parse().unwrap();
+            let mut calls = Vec::new();
+            let mut bufs = Vec::new();
+            for i in 0..n {
+                let b = 5 + 4 * i;
+                calls.push(Call { entry: f[b].parse().unwrap(), cfg: f[b + 1].parse().unwrap(), ucap: f[b + 2].parse().unwrap() });
+                bufs.push(unhex(f[b + 3]));
+            }
+            let mut arena = vec![0u8; bufs.iter().map(|b| b.len()).max().unwrap_or(0)];
+            let mut tmp = String::new();
+            for (i, (c, b)) in calls.iter().zip(bufs.iter()).enumerate() {
+                arena[..b.len()].copy_from_slice(b);
+                tmp.clear();
+                api_case(kind, c.entry, c.cfg, c.ucap, &arena[..b.len()], &mut tmp);
+                if i + 1 == n {
+                    out.push_str(&tmp);
+                }
+            }
+        }
         "S" => {
             let data = unhex(f[5]);
             scan_case(f[2].parse().unwrap(), f[3].parse().unwrap(), f[4].parse().unwrap(), &data, out);
